@@ -294,15 +294,20 @@ func replayWitnesses(prop, tier string, hByID map[string]Harness, models map[str
 		ids = append(ids, id)
 	}
 	sort.Strings(ids)
-	seenH := map[string]bool{}
+	seenH := map[string]int{}
 	for _, id := range ids {
 		m := models[id]
 		h, ok := hByID[m.Harness]
-		if !ok || seenH[h.ID] {
+		if !ok {
 			continue
 		}
-		seenH[h.ID] = true
-		if h.Replay == "native" || (h.Replay == "auto" && !hasReplacements(h, pkgs[h.Pkg])) {
+		native := h.Replay == "native" || (h.Replay == "auto" && !hasReplacements(h, pkgs[h.Pkg]))
+		// one witness per harness, plus up to two further path samples where replay is native
+		if seenH[h.ID] >= 1 && (!native || seenH[h.ID] >= 3 || !strings.Contains(id, "#p")) {
+			continue
+		}
+		seenH[h.ID]++
+		if native {
 			byPkg[h.Pkg] = append(byPkg[h.Pkg], item{h, id, m})
 		} else {
 			interp = append(interp, item{h, id, m})
